@@ -2,4 +2,4 @@ package main
 
 import "verifharness/c08"
 
-func init() { runners["C08"] = c08.Run }
+func init() { runners["C08"] = c08.Run; facts["C08"] = c08.Facts }
